@@ -110,6 +110,21 @@ pub fn kernel_budget(rlimit_stack: Option<u64>, default_stack: u64) -> usize {
     (lim as usize).max(131072)
 }
 
+/// The kernel is the judge of what can be passed: really exec /bin/true with these arguments
+/// under the run's environment and stack limit (both still in force in this process).
+fn kernel_accepts(args: &[Vec<u8>], env: &[(String, String)]) -> bool {
+    use std::os::unix::ffi::OsStrExt;
+    let mut c = std::process::Command::new("/bin/true");
+    for a in args {
+        c.arg(std::ffi::OsStr::from_bytes(a));
+    }
+    c.env_clear();
+    for (k, v) in env {
+        c.env(k, v);
+    }
+    matches!(c.status(), Ok(st) if st.success())
+}
+
 impl Property for C06 {
     const ID: &'static str = "C06";
     type Sc = Sc;
@@ -433,6 +448,26 @@ impl Property for C06 {
                     let reported = obs.status == RunStatus::Exit(1) && !obs.stderr.is_empty() && spawn_lens.len() == i;
                     if !prefix_ok {
                         rep.fail("C06.replace-invocations", format!("{}: the {} lines before it were not all run as expected ({} invocations)", describe(i), i, spawn_lens.len()));
+                    } else if certain && !reported && {
+                        let l = lens[i];
+                        let args: Vec<Vec<u8>> = sc.initial.iter().map(|t| {
+                            let mut out = vec![];
+                            let tb = t.as_bytes();
+                            let mut k = 0;
+                            while k < tb.len() {
+                                if tb[k..].starts_with(b"{}") {
+                                    out.extend_from_slice(&arg_bytes(i, l));
+                                    k += 2;
+                                } else {
+                                    out.push(tb[k]);
+                                    k += 1;
+                                }
+                            }
+                            out
+                        }).collect();
+                        kernel_accepts(&args, &env)
+                    } {
+                        rep.probe("accounting_said_unpassable_but_the_kernel_accepts");
                     } else if certain && !reported {
                         rep.fail(
                             "C06.oversize-argument-not-reported",
@@ -493,6 +528,13 @@ impl Property for C06 {
                         "C06.arguments-not-delivered-once-in-order",
                         format!("{ctxs}: arguments before the oversize one (#{i}) were not all delivered in order ({} delivered)", delivered.len()),
                     );
+                } else if certain && !reported && explicit_s.map_or(true, |s| base_s + lens[i] + 1 <= s) && lens[i] + 1 <= MAX_ARG_STRLEN && {
+                    // the accounting above said "cannot be passed" but xargs passed it: ask the kernel
+                    let mut args: Vec<Vec<u8>> = xs.cmd[1..].iter().map(|c| c.as_bytes().to_vec()).collect();
+                    args.push(arg_bytes(i, lens[i]));
+                    kernel_accepts(&args, &env)
+                } {
+                    rep.probe("accounting_said_unpassable_but_the_kernel_accepts");
                 } else if certain && !reported {
                     rep.fail(
                         "C06.oversize-argument-not-reported",
